@@ -32,6 +32,8 @@ LEVEL_NOTE = ("Trusted: Coq 8.16.1 kernel incl. vm_compute; no axioms for 11 of 
               "hand-written model's fidelity is sampled by the correspondence check (exact comparison of decoded point labels, "
               "degrees, sizes and knot vectors); knot-vector normalisation and float conversion inside setters are not modelled "
               "(inputs are normalised floats).")
+# functions of the numerical core this property rests on that are also tied by the translator (tie theorems: Proofs/GenTie*.v, restated in Props/)
+TRANSLATED = ["compatibility.flip_ctrlpts_u", "compatibility.flip_ctrlpts", "compatibility.flip_ctrlpts2d"]
 TECHNIQUE = "machine-checked proof in Coq (nat/list, lia/nia + list induction) over a hand-written Gallina model + exact correspondence check evaluated by coqc"
 
 WTS = [0.5, 1.0, 2.0, 4.0, 0.25]
